@@ -35,7 +35,7 @@ def chunks(tag, ops, n=120):
 
 
 # ---------------------------------------------------------------------------------- stream 1
-X_SPECIAL = [-1e300, -3.0, -1e-300, -0.0, 0.0, 5e-324, 1e-300, 1e-9, 0.3, 0.5, 0.95, 1.0, 1.5, 7.0, 60.0, 1e5]
+X_SPECIAL = [-math.inf, -1e300, -3.0, -1e-300, -0.0, 0.0, 5e-324, 1e-300, 1e-9, 0.3, 0.5, 0.95, 1.0, 1.5, 7.0, 60.0, 1e5, 1e300, math.inf, math.nan]
 SHAPE_SPECIAL = [-2.0, -1e-300, -0.0, 0.0, 1e-300, 0.05, 0.5, 1.0, 2.5, 30.0, 200.0]
 RATE_SPECIAL = [-1.0, -1e-300, -0.0, 0.0, 1e-3, 0.5, 1.0, 40.0, 1e3]
 P_SPECIAL = [-1.0, -1e-300, -0.0, 0.0, 1e-300, 1e-21] + around(1e-20) + [1e-12, 1e-7] + around(.000002) + [1e-3, 0.25] \
@@ -302,6 +302,8 @@ def explore(rng, n):
         # ---- end points of the support
         ops.append(acc("ends", "pgamma", 0.0, 0.0, 0.0, a, b))
         ops.append(acc("ends", "pgamma", TOL_GAMMA, 1.0, (a + 40 * math.sqrt(a) + 800) / b * log_uniform(rng, 1, 1e290 * min(b, 1.0)), a, b))
+        ops.append(acc("ends", "pgamma", 0.0, 1.0, math.inf, a, b))
+        ops.append(acc("ends", "pchisq", 0.0, 1.0, math.inf, v))
         ops.append(acc("ends", "pchisq", 0.0, 0.0, 0.0, v))
         ops.append(acc("ends", "pchisq", TOL_GAMMA, 1.0, (v + 40 * math.sqrt(v) + 1700) * log_uniform(rng, 1, 1e290), v))
         ops.append(acc("ends", "pbeta", 0.0, 0.0, 0.0, al, be))
@@ -366,6 +368,10 @@ def explore(rng, n):
         ops.append(mono("qchisq", SLACK_ROUND, (g1, v, 0.0), (g2, v, 0.0)))
         ops.append(inv("chisq", TOL_GAMMA, g2, v))
     refs = scipy_refs([(f, a, b, c) for (f, a, b, c, _) in want])
+    if refs is None:
+        # a reported gap, not a silent one: the accuracy clause is not explored in this run
+        sys.stderr.write("[gens/C08] GAP: no reference values (%s): the x.acc accuracy ops are not generated, "
+                         "the accuracy clause of C08 is NOT explored in this run\n" % SCIPY_NOTE["status"])
     if refs is not None:
         for (f, a, b, c, tol), r in zip(want, refs):
             if r == r:
@@ -379,7 +385,7 @@ def explore(rng, n):
 # transcribed kernels (`k.*`, bit-exact tie) and the exact reflections (`refl.*`).  Every generator
 # below is aimed at one decision of the anchored code; props/C08.coverage.md lists which.
 def lg(a):
-    return math.lgamma(a) if a > 0 else 0.0
+    return math.lgamma(a) if a > 0 else (a if a != a else 0.0)
 
 
 def clampp(p):
@@ -407,6 +413,11 @@ def ig_point(rng):
     rescaling of the continued fraction (|pn[4]| >= 1e30), pn[5] == 0"""
     a = log_uniform(rng, 0.05, 200)
     k = rng.randrange(12)
+    if rng.random() < 0.02:
+        # non-finite arguments: isinf(x) -> 1 (cpp:158), NaN / infinite shape propagate through the series
+        x = rng.choice([math.inf, math.inf, math.nan, gamma_x(rng, a, 1.0)])
+        a = rng.choice([a, a, math.inf, math.nan, float(rng.randint(1, 5))])
+        return x, a
     if k <= 3:
         x = gamma_x(rng, a, 1.0)
     elif k == 4:
@@ -632,6 +643,7 @@ def coverage_extra(cases, answers):
     out = branch_coverage(cases)
     out.update({"search_ops": counts, "search_worst_deviation": {k: float("%.3g" % v) for k, v in sorted(worst.items())},
             "search_unparsed_or_raised": raised, "search_reference": SCIPY_NOTE["status"],
+            "search_reference_gap": not SCIPY_NOTE["status"].startswith("ok"),
             "search_note": "x.* ops are exploration of the numeric kernels on grids/random points (accuracy vs scipy.special, "
                            "closed-form special cases, identities, monotonicity, inverse relations); they support, and are not "
                            "part of, obligations/discharged"})
